@@ -59,6 +59,9 @@ type G struct {
 	// ZeroUnionKeys allows list keys that are a union holding the zero value of its member
 	// type (only the ordered-map check on its own package asks for them)
 	ZeroUnionKeys bool
+	// WideInts also draws the far ends of the 8/16/32-bit integer types (set by C10 only, so the
+	// other checks' streams stay as they are); added for seeded change S131
+	WideInts bool
 	R *simrt.Rng
 	P Params
 	inOrdered int
@@ -256,6 +259,23 @@ func (g *G) intVal(t *yang.YangType, bits int, signed bool) (int64, uint64, bool
 			}
 		} else {
 			u := []uint64{1 << 63, 1<<64 - 1, 1<<63 + 12345}[g.R.Intn(3)]
+			if inRange(t, false, u) {
+				return int64(u), u, true
+			}
+		}
+	}
+	if g.WideInts && bits < 64 && g.R.Intn(5) == 0 {
+		if signed {
+			c := []int64{1<<(bits-1) - 1, -1 << (bits - 1), 1<<(bits-1) - 2}[g.R.Intn(3)]
+			neg, abs := c < 0, uint64(c)
+			if neg {
+				abs = uint64(-c)
+			}
+			if inRange(t, neg, abs) {
+				return c, uint64(c), true
+			}
+		} else {
+			u := []uint64{1 << (bits - 1), 1<<bits - 1, 1<<(bits-1) + 77}[g.R.Intn(3)]
 			if inRange(t, false, u) {
 				return int64(u), u, true
 			}
